@@ -142,6 +142,21 @@ def run(ctx):
             run.instance(R2, {"fn": "update_wallet_state", "obligation": "every expired outstanding entry is cancelled: from the tip >= cutoff edge the loop cannot continue or return without cancel_tx"}, held=h)
             if not h:
                 run.finding(Finding(R2, uws, "an expired entry can be skipped: a further condition sits between the expiry comparison and cancel_tx", site=c.site_of(u, leaves[0]) if leaves else u.loc()))
+            # ... and no entry ends the walk: whatever an entry's cutoff, the loop goes on to the next entry
+            # (only an error may leave it early)
+            loop_next = None
+            for b2 in sorted(nxt):
+                if x.b in cfg.reach(u, starts=[b2]) and b2 in cfg.reach(u, starts=[x.b]):
+                    loop_next = b2
+            h = False
+            if loop_next is not None:
+                # leaving the loop is allowed only from the head itself (iterator exhausted = the None arm of next())
+                g_next = cfg.call_guard(u, loop_next)
+                some_reach = cfg.reach(u, starts=[d for (_s, d) in g_next.ok], cut_nodes={loop_next} | cfg.error_return_blocks(u)) if g_next.ok else set()
+                h = bool(g_next.ok) and not any(u.bbs[b2]["t"]["k"] == "ret" for b2 in some_reach)
+            run.instance(R2, {"fn": "update_wallet_state", "obligation": "the expiry walk visits every outstanding entry: from inside an iteration only the loop head (or an error) is reachable, never the function's return"}, held=h)
+            if not h:
+                run.finding(Finding(R2, uws, "the expiry walk can stop early: an entry whose cutoff lies ahead ends the loop instead of being skipped", site=u.loc()))
             # the cancelled id is the iterated entry's id; entries come from retrieve_txs(outstanding_only = true)
             b, t = cancels[0]
             o_id = vf.origins(u, t["a"][3])
